@@ -233,7 +233,9 @@ func (c *Config) handleSvcEndpointUpdate(svcName string, added, removed []*servi
 		validAdded = append(validAdded, endpoint)
 	}
 
-	if sw.Config == nil {
+	if sw.Config == nil || sw.Endpoints == nil {
+		// NOTE: the endpoints are still unknown when the update only
+		// removed endpoints which were never added.
 		return
 	}
 	switch oldEndpoints {
